@@ -488,6 +488,24 @@ func run(e *core.Env) {
 				if !found {
 					w.fail("added-but-absent", "AddRoute reported added, route not in table: %s", w.afterOp)
 				}
+				// "Added" is also a statement about how long: a route announced with an expiry
+				// in the future is present until then (or until the configured lifetime of its
+				// prefix is over, whichever comes first) - also when the table held the same
+				// route from an earlier announcement with an earlier expiry. A route that stays
+				// stored under its old expiry is taken away by a cleanup while its destination
+				// goes on announcing it.
+				if !peer && entry.Expires.After(time.Now()) {
+					lower := entry.Expires
+					if rp, ok := w.rp(entry.DstIP); ok && rp.EntryTTL > 0 && time.Now().Add(rp.EntryTTL).Before(lower) {
+						lower = time.Now().Add(rp.EntryTTL)
+					}
+					for i := range after {
+						if sameRouteExactly(&after[i], &entry) && after[i].Expires.Before(lower) {
+							w.fail("added-route-expires-earlier-than-announced", "AddRoute reported added, but the stored route expires %v before the announced expiry (or configured lifetime): %s", lower.Sub(after[i].Expires), w.afterOp)
+						}
+					}
+					e.Probe("added_route_lifetime_judged")
+				}
 				if peer {
 					w.peers[entry.DstIP] = true
 				}
